@@ -32,6 +32,7 @@ def run(rep, tier):
     rep.rule("R3", "xdis.std's module-level names are the same-named members of the default API object and those are the same-named fields of its opcode table / bound finders")
     rep.rule("R4", "get_code_object probes __func__, __code__, gi_code, ag_code, cr_code, str (compile), co_code in dis._get_code_object's order")
     rep.rule("R5", "float version numbers 1.0 ... 3.9 convert to the right (major, minor)")
+    rep.rule("R7", "like dis, xdis.std.get_instructions and iteration over xdis.std.Bytecode leave out the inline CACHE entries of 3.11+ code unless show_caches is given")
     rep.rule("R6", "what the API returns is what the shared machinery computes: for every opcode table make_std_api can select, the decoder (C02 widths/operands, "
                    "C03 operand values, C04 targets and labels) and the line-start finders (C05 rules) agree with Lib/dis.py of that version")
     T = tables()
@@ -257,6 +258,50 @@ def run(rep, tier):
             rep.ob("R5", "xdis.std.make_std_api", "float=%s" % v, tuple(got) == want if isinstance(got, (tuple, list)) else False, expected=list(want), derived=got)
     else:
         rep.ob("R5", "xdis.std.make_std_api", "float-branch", False, expected="isinstance(python_version, float) conversion", derived="not found")
+    # ---------------------------------------------------------------- R7 inline CACHE entries are hidden by default, as in dis (show_caches=False)
+    A_ = F.modules["xdis.std"].ns.get("_StdApi")
+    gi = A_.lookup("get_instructions") if isinstance(A_, ClassRef) else None
+    if not isinstance(gi, FuncRef):
+        raise AnalysisError("anchor vanished: xdis.std._StdApi.get_instructions")
+    rep.analysed(gi.qualname)
+
+    def bc_hook(spec, name, fv, args, kw, node):
+        if name == "BytecodeClass":
+            return Sym("bc", "obj!")
+        return NotImplemented
+    for sc, want in ((False, ["NotEq(attr(%s, 'opname'), 'CACHE')"]), (True, [])):
+        me_ = Instance(A_)
+        me_.attrs["Bytecode"] = Sym("BytecodeClass", "func")
+        sp = Spec(F, hooks=[bc_hook])
+        sp.gen_elem_hook = lambda spec, gen, tag: Sym("inst", "obj!")
+        kwargs = {"show_caches": sc}
+        if "show_caches" not in [a.arg for a in gi.node.args.args]:
+            kwargs = {}
+        sp.run(gi, [me_, Sym("x")], kwargs)
+        ys = [e for k, e in flatten_effects(sp.effects) if k == "yield"]
+        srcs = [e for k, e in flatten_effects(sp.effects) if k == "loop-begin"]
+        got = None
+        okc = False
+        if len(ys) == 1 and len(srcs) == 1:
+            elem = show(ys[0].args[0])
+            got = [show(g) for g in ys[0].guards if not (isinstance(g, Op) and g.op == "in-loop")]
+            okc = got == [w % elem for w in want] and "get_instructions" in show(srcs[0].args[2])
+        elif not ys:
+            got = "returns the underlying iterator unfiltered"
+        if sc is False or kwargs:
+            rep.ob("R7", gi.qualname, "cache-entries:show_caches=%s" % sc, okc, expected="yields every instruction of Bytecode(x).get_instructions(x, first_line)%s" % (" except CACHE" if not sc else ""),
+                   derived=got, msg="dis.get_instructions(x) leaves out the inline CACHE entries of 3.11+ code unless show_caches=True; xdis.std.get_instructions %s" % (
+                       "yields them" if not sc else "does not yield them on request"))
+    m_std, init_std = repo.function("xdis.std._StdApi.__init__")
+    ncls = [n for n in ast.walk(init_std) if isinstance(n, ast.ClassDef) and n.name == "Bytecode"]
+    it_ = [n for c in ncls for n in c.body if isinstance(n, ast.FunctionDef) and n.name == "__iter__"]
+    filt = False
+    for fn_ in it_:
+        for c in ast.walk(fn_):
+            if isinstance(c, ast.Compare) and any(isinstance(x, ast.Constant) and x.value == "CACHE" for x in ast.walk(c)) and any(isinstance(x, ast.Attribute) and x.attr == "opname" for x in ast.walk(c)):
+                filt = True
+    rep.ob("R7", "xdis.std._StdApi.__init__.Bytecode.__iter__", "cache-entries-hidden-by-default", filt, expected="iteration skips CACHE unless show_caches", derived="filtered" if filt else "not filtered",
+           msg="iterating dis.Bytecode(x) leaves out the inline CACHE entries of 3.11+ code unless show_caches=True")
     # ---------------------------------------------------------------- R6 the shared decoder and line-start machinery
     from ..report import SubReport, merge_sub
     from . import c05, dis_rules
